@@ -45,7 +45,7 @@ def peer_lengths(rng, data: bytes, depth=0) -> bytes:
         content = data[pos + hl : pos + hl + ln]
         if cons and depth < 3 and rng.random() < 0.5:
             content = peer_lengths(rng, content, depth + 1)
-        form = rng.choice([4, 4, 2, 1, 3, 5, 8]) if (depth == 0 or rng.random() < 0.3) else 0
+        form = rng.choice([4, 4, 2, 1, 3, 5, 8, 9, 17]) if (depth == 0 or rng.random() < 0.3) else 0
         out += ber.tlv(cls, cons, num, content, form)
         pos += hl + ln
     return out
@@ -129,6 +129,18 @@ class C02(SessionProp):
         out = []
         for chunks in ([s[:1], s[1:]], [bytes([b]) for b in s], [s[:2], s[2:40], s[40:]]):
             out.append({"role": 1, "pre": [], "msgs": [m1, m2, m3], "chunks": chunks, "calls": [[RECV, c] for c in chunks], "meta": None})
+        # one message of 64 KiB and more whose last chunk ends exactly on the message boundary
+        for size, cuts in ((65536, [30000]), (70000, [1, 69000]), (100000, [50000]), (100000, [40000, 80000]), (65535, [65530])):
+            me = [1, [4, b"cn=photo", [[b"jpegPhoto", [b"\x5a" * size]]]], []]
+            md = [1, [5, [0, b"", b"", []]], []]
+            pm = msgs.pack(me)
+            pre = [[C_SEARCH, b"", 2, 0, 0, 0, 0, [7, b"objectClass"], [], []]]
+            parts, prev = [], 0
+            for cpos in cuts + [len(pm)]:
+                parts.append(pm[prev:cpos])
+                prev = cpos
+            chunks = parts + [msgs.pack(md)]
+            out.append({"role": 0, "pre": pre, "msgs": [me, md], "chunks": chunks, "calls": pre + [[RECV, c] for c in chunks], "meta": None})
         # first message to a session that has seen nothing yet, carrying octets that are another protocol's opening
         # (TLS record 16 03 0x - as content, and as length octet 0x16 followed by content 03 0x -, SSLv2, HTTP, SSH):
         # one case per cut position, so that every chunk start is tried
